@@ -213,17 +213,17 @@ fn compute_default_blues(shaper: &Shaper, coords: &[F2Dot14], style: &StyleClass
                 if outline.points.len() <= 2 {
                     continue;
                 }
-                let mut best_y: Option<i16> = None;
+                let mut best_y: Option<i32> = None;
                 // Find the extreme point depending on whether this is a top or
                 // bottom blue
                 let best_contour_and_point = if blue_zones.is_top_like() {
                     outline.find_last_contour(|point| {
                         if best_y.is_none() || Some(point.y) > best_y {
                             best_y = Some(point.y);
-                            ascender = ascender.max(point.y as i32 + y_offset);
+                            ascender = ascender.max(point.y + y_offset);
                             true
                         } else {
-                            descender = descender.min(point.y as i32 + y_offset);
+                            descender = descender.min(point.y + y_offset);
                             false
                         }
                     })
@@ -231,10 +231,10 @@ fn compute_default_blues(shaper: &Shaper, coords: &[F2Dot14], style: &StyleClass
                     outline.find_last_contour(|point| {
                         if best_y.is_none() || Some(point.y) < best_y {
                             best_y = Some(point.y);
-                            descender = descender.min(point.y as i32 + y_offset);
+                            descender = descender.min(point.y + y_offset);
                             true
                         } else {
-                            ascender = ascender.max(point.y as i32 + y_offset);
+                            ascender = ascender.max(point.y + y_offset);
                             false
                         }
                     })
@@ -245,8 +245,8 @@ fn compute_default_blues(shaper: &Shaper, coords: &[F2Dot14], style: &StyleClass
                 let best_contour = &outline.points[best_contour_range];
                 // If we have a contour and point then best_y is guaranteed to
                 // be Some
-                let mut best_y = best_y.unwrap() as i32;
-                let best_x = best_contour[best_point_ix].x as i32;
+                let mut best_y = best_y.unwrap();
+                let best_x = best_contour[best_point_ix].x;
                 // Now determine whether the point belongs to a straight or
                 // round segment by examining the previous and next points.
                 let [mut on_point_first, mut on_point_last] =
@@ -261,9 +261,9 @@ fn compute_default_blues(shaper: &Shaper, coords: &[F2Dot14], style: &StyleClass
                 // are not on the same Y coordinate, then threshold the
                 // "closeness"
                 for (ix, prev) in cycle_backward(best_contour, best_point_ix) {
-                    let dist = (prev.y as i32 - best_y).abs();
+                    let dist = (prev.y - best_y).abs();
                     // Allow a small distance or angle (20 == roughly 2.9 degrees)
-                    if dist > 5 && ((prev.x as i32 - best_x).abs() <= (20 * dist)) {
+                    if dist > 5 && ((prev.x - best_x).abs() <= (20 * dist)) {
                         break;
                     }
                     segment_first = ix;
@@ -279,9 +279,9 @@ fn compute_default_blues(shaper: &Shaper, coords: &[F2Dot14], style: &StyleClass
                     // Save next_ix which is used in "long" blue computation
                     // later
                     next_ix = ix;
-                    let dist = (next.y as i32 - best_y).abs();
+                    let dist = (next.y - best_y).abs();
                     // Allow a small distance or angle (20 == roughly 2.9 degrees)
-                    if dist > 5 && ((next.x as i32 - best_x).abs() <= (20 * dist)) {
+                    if dist > 5 && ((next.x - best_x).abs() <= (20 * dist)) {
                         break;
                     }
                     segment_last = ix;
@@ -312,9 +312,7 @@ fn compute_default_blues(shaper: &Shaper, coords: &[F2Dot14], style: &StyleClass
                     // See <https://gitlab.freedesktop.org/freetype/freetype/-/blob/57617782464411201ce7bbc93b086c1b4d7d84a5/src/autofit/aflatin.c#L641>
                     // heuristic threshold value
                     let length_threshold = units_per_em / 25;
-                    let dist = (best_contour[segment_last].x as i32
-                        - best_contour[segment_first].x as i32)
-                        .abs();
+                    let dist = (best_contour[segment_last].x - best_contour[segment_first].x).abs();
                     if dist < length_threshold
                         && satisfies_min_long_segment_len(
                             segment_first,
@@ -327,7 +325,7 @@ fn compute_default_blues(shaper: &Shaper, coords: &[F2Dot14], style: &StyleClass
                         // find previous point with different x value
                         let mut prev_ix = best_point_ix;
                         for (ix, prev) in cycle_backward(best_contour, best_point_ix) {
-                            if prev.x as i32 != best_x {
+                            if prev.x != best_x {
                                 prev_ix = ix;
                                 break;
                             }
@@ -336,7 +334,7 @@ fn compute_default_blues(shaper: &Shaper, coords: &[F2Dot14], style: &StyleClass
                         if prev_ix == best_point_ix {
                             continue;
                         }
-                        let is_ltr = (best_contour[prev_ix].x as i32) < best_x;
+                        let is_ltr = best_contour[prev_ix].x < best_x;
                         let mut first = segment_last;
                         let mut last = first;
                         let mut p_first = None;
@@ -361,7 +359,7 @@ fn compute_default_blues(shaper: &Shaper, coords: &[F2Dot14], style: &StyleClass
                             } else {
                                 last = 0;
                             }
-                            if (best_y - best_contour[first].y as i32).abs() > height_threshold {
+                            if (best_y - best_contour[first].y).abs() > height_threshold {
                                 // vertical distance too large
                                 hit = false;
                                 if last == segment_first {
@@ -369,12 +367,9 @@ fn compute_default_blues(shaper: &Shaper, coords: &[F2Dot14], style: &StyleClass
                                 }
                                 continue;
                             }
-                            let dist =
-                                (best_contour[last].y as i32 - best_contour[first].y as i32).abs();
+                            let dist = (best_contour[last].y - best_contour[first].y).abs();
                             if dist > 5
-                                && (best_contour[last].x as i32 - best_contour[first].x as i32)
-                                    .abs()
-                                    <= 20 * dist
+                                && (best_contour[last].x - best_contour[first].x).abs() <= 20 * dist
                             {
                                 hit = false;
                                 if last == segment_first {
@@ -388,8 +383,8 @@ fn compute_default_blues(shaper: &Shaper, coords: &[F2Dot14], style: &StyleClass
                                     p_first = Some(last);
                                 }
                             }
-                            let first_x = best_contour[first].x as i32;
-                            let last_x = best_contour[last].x as i32;
+                            let first_x = best_contour[first].x;
+                            let last_x = best_contour[last].x;
                             let is_cur_ltr = first_x < last_x;
                             let dx = (last_x - first_x).abs();
                             if is_cur_ltr == is_ltr && dx >= length_threshold {
@@ -399,13 +394,9 @@ fn compute_default_blues(shaper: &Shaper, coords: &[F2Dot14], style: &StyleClass
                                     } else {
                                         last = 0;
                                     }
-                                    let dy = (best_contour[last].y as i32
-                                        - best_contour[first].y as i32)
-                                        .abs();
+                                    let dy = (best_contour[last].y - best_contour[first].y).abs();
                                     if dy > 5
-                                        && (best_contour[next_ix].x as i32
-                                            - best_contour[first].x as i32)
-                                            .abs()
+                                        && (best_contour[next_ix].x - best_contour[first].x).abs()
                                             <= 20 * dist
                                     {
                                         if last > 0 {
@@ -426,7 +417,7 @@ fn compute_default_blues(shaper: &Shaper, coords: &[F2Dot14], style: &StyleClass
                                         break;
                                     }
                                 }
-                                best_y = best_contour[first].y as i32;
+                                best_y = best_contour[first].y;
                                 segment_first = first;
                                 segment_last = last;
                                 on_point_first = p_first;
@@ -447,7 +438,7 @@ fn compute_default_blues(shaper: &Shaper, coords: &[F2Dot14], style: &StyleClass
                 //    it's round
                 let is_round = match (on_point_first, on_point_last) {
                     (Some(first), Some(last))
-                        if (best_contour[last].x as i32 - best_contour[first].x as i32).abs()
+                        if (best_contour[last].x - best_contour[first].x).abs()
                             > flat_threshold =>
                     {
                         false
@@ -660,9 +651,9 @@ fn compute_cjk_blues(
                     .map(|p| if is_horizontal { p.x } else { p.y })
                     .reduce(
                         if (is_horizontal && is_right) || (!is_horizontal && is_top) {
-                            |a: i16, c: i16| a.max(c)
+                            |a: i32, c: i32| a.max(c)
                         } else {
-                            |a: i16, c: i16| a.min(c)
+                            |a: i32, c: i32| a.min(c)
                         },
                     )
                     .unwrap();
@@ -683,13 +674,13 @@ fn compute_cjk_blues(
         fills[..n_fills].sort_unstable();
         flats[..n_flats].sort_unstable();
         let (mut blue_ref, mut blue_shoot) = if n_flats == 0 {
-            let value = fills[n_fills / 2] as i32;
+            let value = fills[n_fills / 2];
             (value, value)
         } else if n_fills == 0 {
-            let value = flats[n_flats / 2] as i32;
+            let value = flats[n_flats / 2];
             (value, value)
         } else {
-            (fills[n_fills / 2] as i32, flats[n_flats / 2] as i32)
+            (fills[n_fills / 2], flats[n_flats / 2])
         };
         // Make sure blue_ref >= blue_shoot for top/right or vice versa for
         // bottom left
